@@ -1,9 +1,9 @@
 package main
 
 import (
-	"os"
 	"fmt"
 	"math/big"
+	"os"
 
 	sdkmath "cosmossdk.io/math"
 )
